@@ -34,6 +34,9 @@ def main(argv=None) -> int:
     ap.add_argument("--jobs", type=int, default=16)
     a = ap.parse_args(argv)
     try:
+        if a.what == "lint":
+            from . import lints
+            return lints.run(a.repo)
         if a.what == "selftest":
             from . import witness
             return witness.selftest(a.repo, a.jobs)
